@@ -7,6 +7,7 @@ import (
 	"fmt"
 	"math"
 	"math/big"
+	"strconv"
 	"strings"
 
 	"github.com/richardwilkes/toolbox/xmath/geom"
@@ -40,6 +41,27 @@ func (rectArea) Gen(r *hx.Rng, n int, _ string, emit func(string)) {
 		if r.Bool() {
 			kind = "rf"
 			j = uint(r.Intn(4))
+		} else if op != "inset" && r.Chance(1, 8) {
+			// int rectangles in a corner of the int range: the pair (and the point) is shifted so that the largest value
+			// the source computes (X, X+Width, Y, Y+Height of either operand) is MaxInt or MaxInt-1, or the smallest is
+			// MinInt or MinInt+1.  Differences stay small, so no intermediate value leaves int64: inputs on which Go's
+			// X+Width would wrap are NOT generated (integer overflow is outside the property's model).
+			lo, hi := int64(math.MaxInt64), int64(math.MinInt64)
+			for _, g := range [][4]int64{a, b} {
+				for _, v := range []int64{g[0], g[0] + g[2], g[1], g[1] + g[3]} {
+					lo, hi = min(lo, v), max(hi, v)
+				}
+			}
+			var shift int64
+			if r.Bool() {
+				shift = math.MaxInt64 - hi - int64(r.Intn(2))
+			} else {
+				shift = math.MinInt64 - lo + int64(r.Intn(2))
+			}
+			a[0], a[1], b[0], b[1] = a[0]+shift, a[1]+shift, b[0]+shift, b[1]+shift
+		} else if r.Chance(1, 10) { // large magnitudes well inside the range (2^40 .. 2^61)
+			shift := (int64(1) << uint(r.Range(40, 61))) * int64(1-2*r.Intn(2))
+			a[0], a[1], b[0], b[1] = a[0]+shift, a[1]+shift, b[0]+shift, b[1]+shift
 		}
 		parts := make([]string, 0, 10)
 		parts = append(parts, kind, op)
@@ -137,14 +159,27 @@ func (rectArea) Run(line string) string {
 
 type matArea struct{}
 
+// lineScale is a per-line power of two (2^-8 .. 2^8) applied to every generated entry and coordinate of the line:
+// magnitudes vary while every product and sum of the source stays exact (the bit span of a line grows by at most 16).
+var lineScale int
+
+func scaled(k int64, j uint) string {
+	if lineScale >= 0 {
+		return gx.Dy(k<<uint(lineScale), j)
+	}
+	return gx.Dy(k, j+uint(-lineScale))
+}
+
 func genEntry(r *hx.Rng) string {
-	switch r.Intn(6) {
+	switch r.Intn(7) {
 	case 0:
 		return "0"
 	case 1:
 		return "1"
+	case 2:
+		return "-1"
 	default:
-		return gx.Dy(int64(r.Range(-9, 9)), uint(r.Intn(3)))
+		return scaled(int64(r.Range(-9, 9)), uint(r.Intn(3)))
 	}
 }
 
@@ -185,6 +220,10 @@ func genRotMat(r *hx.Rng) string {
 
 func (matArea) Gen(r *hx.Rng, n int, _ string, emit func(string)) {
 	for i := 0; i < n; i++ {
+		lineScale = 0
+		if r.Chance(1, 3) {
+			lineScale = r.Range(-8, 8)
+		}
 		switch r.Intn(12) {
 		case 0:
 			emit("m id")
@@ -256,23 +295,58 @@ func (matArea) Run(line string) string {
 
 // ---------------------------------------------------------------------------------------------- rotation oracle
 
-// rotArea checks the rotation law itself on arbitrary small matrices and angles where the float products round:
-// Rotate(m, θ).TransformPoint(p) must equal the rotation by (sin θ, cos θ) of m.TransformPoint(p), computed exactly
-// in big.Rat from the float values of sin/cos, up to a few ulps of the largest term.
+// rotArea checks the rotation laws on arbitrary small matrices and angles where the float products round.  With
+// (s, c) = the float64 values of math.Sin / math.Cos of the angle and exact big.Rat arithmetic on them:
+//
+//	rot / deg       m.Rotate(θ) / m.RotateByDegrees(d) .TransformPoint(p) = R(s,c) · m.TransformPoint(p)
+//	newrot / newdeg NewRotationMatrix(θ) / NewRotationByDegreesMatrix(d) .TransformPoint(p) = R(s,c) · p
+//	rotn            m.Rotate(θ) applied n times = one rotation by n·θ (sin/cos of the float product n·θ)
+//
+// The tolerance is RELATIVE to the terms: 16 ulp (n·16 for rotn, plus the error of n·θ) of the sum of the absolute
+// values of the terms that make up a coordinate — there is no absolute slack, so an entry that is off by 1e-4 of its
+// size is reported also for tiny or huge matrices.  Angles: a table, random, and — densely — within 1e-3 … 1e-9 of
+// the quarter turns and of 0, where sin or cos is tiny.
 type rotArea struct{}
+
+var quarter = []float64{0, math.Pi / 2, math.Pi, 3 * math.Pi / 2, -math.Pi / 2, 2 * math.Pi, -math.Pi}
+
+func genAngle(r *hx.Rng) float64 {
+	switch r.Intn(4) {
+	case 0:
+		return hx.Pick(r, angles)
+	case 1:
+		return float64(r.Range(-7000, 7000)) / 1000
+	default: // next to a quarter turn
+		d := hx.Pick(r, []float64{1e-3, 5e-4, 2.5e-4, 2e-4, 1e-4, 3e-5, 1e-6, 1e-9, 1e-12}) * float64(1-2*r.Intn(2))
+		return hx.Pick(r, quarter) + d*float64(r.Range(1, 9))/4
+	}
+}
 
 func (rotArea) Gen(r *hx.Rng, n int, _ string, emit func(string)) {
 	for i := 0; i < n; i++ {
-		rad := hx.Pick(r, angles)
-		if r.Bool() {
-			rad = float64(r.Range(-7000, 7000)) / 1000
+		lineScale = 0
+		if r.Chance(1, 3) {
+			lineScale = r.Range(-8, 8)
 		}
-		deg := "rad"
-		if r.Chance(1, 4) {
-			deg = "deg"
-			rad = float64(r.Range(-720, 720)) / 2
+		rad := genAngle(r)
+		kind := hx.Pick(r, []string{"rot", "rot", "rot", "deg", "newrot", "newdeg", "rotn"})
+		if kind == "deg" || kind == "newdeg" {
+			rad = rad * 180 / math.Pi
+			if r.Bool() {
+				rad = float64(r.Range(-720, 720)) / 2
+			}
+			if r.Chance(1, 3) {
+				rad = hx.Pick(r, []float64{0, 90, 180, 270, -90, 360}) + hx.Pick(r, []float64{0.05, 0.01, 0.005, 1e-4, 1e-7})*float64(1-2*r.Intn(2))
+			}
 		}
-		emit("rot " + deg + " " + genMat(r) + " " + genEntry(r) + " " + genEntry(r) + " " + gx.S(rad))
+		cnt := "1"
+		if kind == "rotn" {
+			cnt = strconv.Itoa(hx.Pick(r, []int{2, 3, 10, 100, 1000, 4000}))
+			if r.Bool() {
+				rad = hx.Pick(r, []float64{2e-4, 1e-4, 2.4e-4, 1e-3, 1e-5, math.Pi/2 + 2e-4, math.Pi - 1e-4}) * float64(1-2*r.Intn(2))
+			}
+		}
+		emit("rot " + kind + " " + genMat(r) + " " + genEntry(r) + " " + genEntry(r) + " " + gx.S(rad) + " " + cnt)
 	}
 }
 
@@ -280,41 +354,77 @@ func rat(f float64) *big.Rat { return new(big.Rat).SetFloat64(f) }
 
 func (rotArea) Run(line string) string {
 	f := strings.Fields(line)
-	if len(f) != 11 || f[0] != "rot" {
+	if len(f) != 12 || f[0] != "rot" {
 		return "bad-op"
 	}
-	v := gx.Fs(f[2:])
+	v := gx.Fs(f[2:11])
+	cnt := hx.Atoi(f[11])
 	m := mat(v)
 	p := geom.NewPoint(v[6], v[7])
 	rad := v[8]
 	var got geom.Point[float64]
-	if f[1] == "deg" {
+	exactM := true // does the expected value start from m.TransformPoint(p) (true) or from p (false)?
+	angleErr := 0.0
+	switch f[1] {
+	case "rot":
+		got = m.Rotate(rad).TransformPoint(p)
+	case "deg":
 		got = m.RotateByDegrees(rad).TransformPoint(p)
 		rad *= math.Pi / 180
-	} else {
-		got = m.Rotate(rad).TransformPoint(p)
+	case "newrot":
+		got = geom.NewRotationMatrix(rad).TransformPoint(p)
+		exactM = false
+	case "newdeg":
+		got = geom.NewRotationByDegreesMatrix(rad).TransformPoint(p)
+		rad *= math.Pi / 180
+		exactM = false
+	case "rotn":
+		mm := m
+		for i := 0; i < cnt; i++ {
+			mm = mm.Rotate(rad)
+		}
+		got = mm.TransformPoint(p)
+		// one rotation by n·θ; the float product n·θ is off by at most half an ulp, which moves the point by that angle
+		angleErr = math.Abs(float64(cnt)*rad) * 0x1p-52
+		rad = float64(cnt) * rad
+	default:
+		return "bad-op"
 	}
 	s, c := rat(math.Sin(rad)), rat(math.Cos(rad))
-	// exact m.TransformPoint(p)
 	mul := func(a, b *big.Rat) *big.Rat { return new(big.Rat).Mul(a, b) }
 	add := func(a, b *big.Rat) *big.Rat { return new(big.Rat).Add(a, b) }
 	sub := func(a, b *big.Rat) *big.Rat { return new(big.Rat).Sub(a, b) }
-	qx := add(add(mul(rat(m.ScaleX), rat(p.X)), mul(rat(m.SkewX), rat(p.Y))), rat(m.TransX))
-	qy := add(add(mul(rat(m.SkewY), rat(p.X)), mul(rat(m.ScaleY), rat(p.Y))), rat(m.TransY))
+	qx, qy := rat(p.X), rat(p.Y)
+	// magnitude of the terms: |m|·|p| sums for the inner point, then |s|,|c| ≤ 1 times those
+	magX, magY := math.Abs(p.X), math.Abs(p.Y)
+	if exactM {
+		qx = add(add(mul(rat(m.ScaleX), rat(p.X)), mul(rat(m.SkewX), rat(p.Y))), rat(m.TransX))
+		qy = add(add(mul(rat(m.SkewY), rat(p.X)), mul(rat(m.ScaleY), rat(p.Y))), rat(m.TransY))
+		magX = math.Abs(m.ScaleX*p.X) + math.Abs(m.SkewX*p.Y) + math.Abs(m.TransX)
+		magY = math.Abs(m.SkewY*p.X) + math.Abs(m.ScaleY*p.Y) + math.Abs(m.TransY)
+	}
 	wx := sub(mul(c, qx), mul(s, qy))
 	wy := add(mul(s, qx), mul(c, qy))
-	mag := 1.0
-	for _, e := range []float64{m.ScaleX, m.SkewX, m.TransX, m.SkewY, m.ScaleY, m.TransY} {
-		mag += math.Abs(e) * (1 + math.Abs(p.X) + math.Abs(p.Y))
+	sf, _ := s.Float64()
+	cf, _ := c.Float64()
+	sf, cf = math.Abs(sf), math.Abs(cf)
+	ulps := 16.0 * float64(cnt)
+	tolX := (cf*magX+sf*magY)*ulps*0x1p-52 + (magX+magY)*angleErr
+	tolY := (sf*magX+cf*magY)*ulps*0x1p-52 + (magX+magY)*angleErr
+	if f[1] == "rotn" { // rounding accumulates over the n steps on the full magnitude, not on the final terms
+		tolX = (magX+magY)*ulps*0x1p-52 + (magX+magY)*angleErr
+		tolY = tolX
 	}
-	tol := new(big.Rat).SetFloat64(mag * 16 * 0x1p-52)
-	for i, pair := range [][2]*big.Rat{{rat(got.X), wx}, {rat(got.Y), wy}} {
-		d := sub(pair[0], pair[1])
+	for i, tr := range []struct {
+		got, want *big.Rat
+		tol       float64
+	}{{rat(got.X), wx, tolX}, {rat(got.Y), wy, tolY}} {
+		d := sub(tr.got, tr.want)
 		d.Abs(d)
-		if d.Cmp(tol) > 0 {
-			w, _ := pair[1].Float64()
-			g, _ := pair[0].Float64()
-			return fmt.Sprintf("FAIL rotate law coordinate %d: got %v want %v", i, g, w)
+		if d.Cmp(new(big.Rat).SetFloat64(tr.tol)) > 0 {
+			w, _ := tr.want.Float64()
+			g, _ := tr.got.Float64()
+			return fmt.Sprintf("FAIL rotation law (%s) coordinate %d: got %v want %v (tolerance %v)", f[1], i, g, w, tr.tol)
 		}
 	}
 	return "ok"
@@ -341,7 +451,37 @@ func divisionsExact(c []ipt, p ipt) bool {
 	return true
 }
 
+// bigContour makes a contour with about n vertices whose edges are horizontal, vertical or at 45 degrees (every
+// quotient of Contour.Contains is then exact): a staircase that walks right/up and returns along the axes.
+func bigContour(r *hx.Rng, n int) []ipt {
+	c := make([]ipt, 0, n+2)
+	x, y := int64(r.Range(-6, 0)), int64(r.Range(-6, 0))
+	x0, y0 := x, y
+	for len(c) < n {
+		c = append(c, ipt{x, y})
+		switch r.Intn(3) {
+		case 0:
+			x += int64(r.Range(1, 3))
+		case 1:
+			y += int64(r.Range(1, 3))
+		default:
+			d := int64(r.Range(1, 2))
+			x, y = x+d, y+d
+		}
+	}
+	c = append(c, ipt{x, y}, ipt{x0 - 1, y}) // back along the top, closing edge is vertical-ish: make it vertical
+	c = append(c, ipt{x0 - 1, y0})
+	return c
+}
+
 func genContour(r *hx.Rng) []ipt {
+	if r.Chance(1, 40) { // vertex counts around 12, 16/17, 32/33, 64/65, 128/129, 256+, 1000+
+		n := hx.Pick(r, []int{9, 13, 14, 29, 30, 61, 62, 125, 126, 253})
+		if r.Chance(1, 12) {
+			n = hx.Pick(r, []int{300, 1000})
+		}
+		return bigContour(r, n)
+	}
 	switch r.Intn(8) {
 	case 0:
 		return nil
@@ -379,6 +519,9 @@ func (polyArea) Gen(r *hx.Rng, n int, _ string, emit func(string)) {
 		nc := 1
 		if op[0] == 'p' {
 			nc = r.Range(0, 4)
+			if r.Chance(1, 60) { // many contours: 12, 16/17, 32/33, 64/65, 128/129
+				nc = hx.Pick(r, []int{12, 16, 17, 32, 33, 64, 65, 128, 129})
+			}
 		}
 		var cs [][]ipt
 		var p ipt
@@ -417,7 +560,11 @@ func (polyArea) Gen(r *hx.Rng, n int, _ string, emit func(string)) {
 		case "ccontains", "pcontains", "pevenodd":
 			head = " " + gx.Dy(p.x, j) + " " + gx.Dy(p.y, j)
 		case "ptransform":
+			lineScale = 0
 			head = " " + genMat(r)
+			if r.Chance(1, 4) {
+				head = hx.Pick(r, []string{" 1 0 0 0 1 0", " 1 0 0 0 1 0", " 1 0 3 0 1 -2", " 0 0 0 0 0 0", " -1 0 0 0 -1 0"})
+			}
 		}
 		var sb strings.Builder
 		sb.WriteString("poly " + op + head)
@@ -489,11 +636,25 @@ func (polyArea) Run(line string) string {
 	case f[1] == "ptransform" && len(head) == 6:
 		before := polyStr(p)
 		res := p.Transform(mat(head))
+		out := polyStr(res)
 		state := "same"
 		if polyStr(p) != before {
 			state = "changed"
 		}
-		return state + " " + polyStr(res)
+		// aliasing: overwrite the result (and whatever shares its storage); the operand must stay what it was, and
+		// transforming again must give the same answer
+		for _, c := range res {
+			for i := range c {
+				c[i] = geom.NewPoint(12345.5, -54321.25)
+			}
+		}
+		for i := range res {
+			res[i] = nil
+		}
+		if polyStr(p) != before || polyStr(p.Transform(mat(head))) != out {
+			state = "aliased"
+		}
+		return state + " " + out
 	}
 	return "bad-op"
 }
